@@ -297,12 +297,27 @@ def compat_case(draw):
             last.append(last[-1] + step)
     elif kind == "independent":
         b = draw(hg.grid_cfg(min_len=1, max_len=3))
+    # coordinate reference systems (a documented constructor argument): grids in different systems never describe the
+    # same locations, whatever their numbers say
+    if draw(st.integers(0, 3)) == 0:
+        ca, cb = draw(st.sampled_from(CRS)), draw(st.sampled_from(CRS))
+        a, b = dict(a, crs=ca), dict(b, crs=cb)
     # the same pair in another length unit (micrometre .. kilometre cells): compatibility must not depend on it
     return {"a": a, "b": b, "kind": kind, "scale": draw(st.sampled_from([1.0, 1.0, 1.0, 1.0e-6, 1.0e-5, 1.0e-3, 1.0e3]))}
 
 
+CRS = [None, "EPSG:25832", "EPSG:25832", "EPSG:4326"]
+
+
 def check_compat(case, ctx):
     a, b = case["a"], case["b"]
+    if a.get("crs") != b.get("crs"):
+        ctx.event("different-crs")
+        ctx.nontrivial(True)
+        ga, gb = hg.build(a), hg.build(b)
+        if ga.compatible_with(gb) or gb.compatible_with(ga):
+            ctx.violation("compatible-across-crs", f"grids in different coordinate reference systems ({a.get('crs')} / {b.get('crs')}) reported compatible: {a} / {b}")
+        return
     sc = case.get("scale", 1.0)
     ga, gb = hg.build(hg.scaled(a, sc)), hg.build(hg.scaled(b, sc))
     if sc != 1.0:
